@@ -71,7 +71,8 @@ void h_space_text_apply(void)
    __CPROVER_assume(Chunk_m_origCol(next) < (1UL << 30) && Chunk_m_origColEnd(pc) < (1UL << 30) && Chunk_m_origCol(OTHERC) < (1UL << 30));   /* columns below 2^30: `int delta = next->GetOrigCol() - ...` converts size_t to int */
    prev_column = column;
    g_kw_asked = 0; g_fp_asked = 0;
-   size_t len_pc = UT_size(Chunk_m_str(pc));
+   size_t len_pc = UT_size(Chunk_m_str(pc)), len_next = UT_size(Chunk_m_str(next));
+   int last_pc = len_pc > 0 ? UT_at(Chunk_m_str(pc), len_pc - 1) : 0, first_next = len_next > 0 ? UT_at(Chunk_m_str(next), 0) : 0;
    space_text_apply(pc, next, &column, prev_column);
    _Bool forced = (Chunk_m_flags(pc) & PCF_FORCE_SPACE_V) == PCF_FORCE_SPACE_V;
    int msp = g_minsp > 1 ? g_minsp : 1;
@@ -82,6 +83,9 @@ void h_space_text_apply(void)
    _Bool shift_ok = ((LANG_SET(LANG_CPP_V) && optv_sp_permit_cpp11_shift) || LANG_SET(LANG_JAVA_V) || LANG_SET(LANG_CS_V) || LANG_SET(LANG_VALA_V) || LANG_SET(LANG_OC_V))
                     && Chunk_m_type(pc) == CT_ANGLE_CLOSE_V && Chunk_m_type(next) == CT_ANGLE_CLOSE_V;
    __CPROVER_assert((g_fp_asked && g_fp_found && g_fp_len != len_pc && !shift_ok && !g_fp_brackets) ==> forced, "postcondition: space_text punctuators that would fuse get PCF_FORCE_SPACE");
+   /* C02-K3: a chunk ending in '/' directly before a chunk starting with '*' or '/' would open a comment ("a / *p" -> "a/*p"): forced space.
+    * (the guard looks at the direct successor, as for the two clauses above; [], {{, }}, () and @"-strings are exempt from the guard altogether) */
+   __CPROVER_assert((g_kw_asked && len_pc > 0 && last_pc == '/' && len_next > 0 && (first_next == '*' || first_next == '/')) ==> forced, "postcondition: space_text a '/' before '*' or '/' gets PCF_FORCE_SPACE (no comment opener is created)");
    /* the forced space is honoured: at least one column between the two chunks */
    __CPROVER_assert(forced ==> column >= prev_column + 1, "postcondition: space_text a forced space yields at least one blank");
    /* C19-K3: the decision applied to columns (Force: exactly max(1,min_sp); Remove: none; Add: at least max(1,min_sp);
